@@ -10,7 +10,7 @@
  * Precision classes (statement: "bit-identically whenever both variants are evaluated at the same precision"), see c09_pair_policy():
  *   P1  r5g6b5 pixels enter the float pipeline (operators that need division) as v/31, v/63, the 8888 presentations
  *       as byte/255: different input values, compared within 2 steps instead of exactly; not compared for the 4 HSL operators.
- *   P2  SATURATE with a visibly opaque source runs as OVER_REVERSE in 8 bits, with an a8r8g8b8/a8/a1 presentation as SATURATE in float: 1-2 steps.
+ *   P2  SATURATE with a visibly opaque source runs as OVER_REVERSE in 8 bits, with an a8r8g8b8/a8/a1 presentation as SATURATE in float: 1 step (7 when interpolated).
  *   P3  float pipeline: interpolated constant 3x3 image vs solid / 1x1 (no interpolation): float rounding noise, 1 step.
  * Everything else - in particular every Porter-Duff/ADD and separable-blend operator, every x8r8g8b8 / a8r8g8b8(255) / explicit-border pair
  * outside P2 - is compared bit for bit.
@@ -255,7 +255,8 @@ static int c09_pair_policy(const scen_t *s, const pres_t *a, const pres_t *b)
      * float_to_unorm).  Both are the value s*(1-da)+d at different precision: one step allowed. */
     int interp = s->fil != 0 && s->xf != 0;      /* the filter really interpolates (with an identity transform bilinear degenerates to nearest) */
     if (s->op == PIXMAN_OP_SATURATE && s->role != 2 && a->recognizable != b->recognizable)
-        return interp ? 2 : 1;                   /* an interpolated sample is itself truncated to 8 bits in the 8-bit pipeline and kept exact in float: one more step */
+        return interp ? 7 : 1;                   /* an interpolated sample is computed with 7-bit weights and truncated to 8 bits in the 8-bit pipeline, with the full 16-bit
+                                                  * fraction and no truncation in float: up to 255/128 per axis + 1 (truncation) + 1.5 (the operator's own rounding) < 7 steps */
     /* P3: in the float pipeline a bits image is interpolated in float (c*w1 + c*w2 + c*w3 + c*w4 is not exactly c), whereas a solid fill or a
      * 1x1 repeating image (format code 'solid', fetched once without interpolation) delivers c itself: last-bit float noise that the
      * truncating float->8-bit store occasionally turns into one step.  Not an opacity matter and not the same arithmetic: one step. */
@@ -606,7 +607,7 @@ int main(int argc, char **argv)
               "also as solid fill, 1x1 repeating bits image (3 formats), 'no mask', and for REPEAT_NONE as an a8r8g8b8 image carrying the transparent outside as an explicit border; all "
               "destinations must be equal bit for bit on the channels both define (r5g6b5 destination: equal to the 8888 result truncated to 565). Precision classes not compared exactly: "
               "(P1) r5g6b5 input under the operators that run in the float pipeline (v/31 vs byte/255): within 2 steps, not compared for the 4 HSL operators (not Lipschitz); "
-              "(P2) SATURATE with a visibly opaque source is evaluated as OVER_REVERSE in 8-bit arithmetic but as SATURATE in float for an a8r8g8b8/a8/a1 presentation: within 1 step (2 when the sample is interpolated); "
+              "(P2) SATURATE with a visibly opaque source is evaluated as OVER_REVERSE in 8-bit arithmetic but as SATURATE in float for an a8r8g8b8/a8/a1 presentation: within 1 step (7 when the sample is interpolated: 7-bit vs 16-bit bilinear weights); "
               "(P3) float pipeline, interpolating filter: interpolated 3x3 constant image vs solid / 1x1 (delivered without interpolation): within 1 step (float rounding of c*w1+..+c*w4). Additionally the 13 exact operators, untransformed, are compared with the "
               "reference equations (rc_exact_pixel), including the alpha channel of the a8r8g8b8 destination presentation. evaluations = scenarios; non-trivial = the destination changed AND "
               "two compared presentations were dispatched differently by the library (other operator after optimize_operator, mask elided, other IS_OPAQUE bits), observed through a link-time "
@@ -625,7 +626,7 @@ int main(int argc, char **argv)
     snprintf(vf->extra_json, sizeof vf->extra_json,
              "\"dispatch_observed\": {\"lookups\": %llu, \"operator_table_cells_exercised\": \"%d/%d\", \"operator_replaced\": %llu, \"mask_elided\": %llu, "
              "\"source_promoted_to_opaque_by_coverage\": %llu, \"mask_promoted_to_opaque_by_coverage\": %llu, \"scenarios_with_differently_dispatched_presentations\": %llu}, "
-             "\"pairs\": {\"bit_exact\": %llu, \"within_tolerance(P1 r5g6b5-in-float 2 steps, P2 SATURATE 1-2 steps, P3 float interpolation noise 1 step)\": %llu, \"skipped\": %llu}, "
+             "\"pairs\": {\"bit_exact\": %llu, \"within_tolerance(P1 r5g6b5-in-float 2 steps, P2 SATURATE 1 or 7 steps, P3 float interpolation noise 1 step)\": %llu, \"skipped\": %llu}, "
              "\"repeat_none_scenarios_checked_against_explicit_transparent_border\": %llu, \"reference_equation_scenarios\": %llu, \"reference_equation_pixels\": %llu",
              (unsigned long long)cov->lookups, cells, cells_possible, (unsigned long long)cov->reduced, (unsigned long long)cov->mask_elided, (unsigned long long)cov->promoted_src,
              (unsigned long long)cov->promoted_mask, (unsigned long long)cov->decisions_differ, (unsigned long long)cov->exact_pairs, (unsigned long long)cov->tol_pairs,
